@@ -1,4 +1,5 @@
 import MJ.Model.OutputEmit
+import MJ.Model.OutputSites
 /-! Line driver for C19.
 
 `prog<TAB>pid api clean ops [psyn]`
@@ -371,12 +372,23 @@ structure Cur where
   nReal : Nat := 0            -- number of real operations (without the synthetic `fail`)
   prog : Option Prog := none
 
-def answer (cur : Cur) (script : List Beh) : String :=
+/-- which of the two functions that build a `WriteWrapper` an API of the harness goes through -/
+def apiOf (api : String) : Api :=
+  if api.startsWith "block:" || api.startsWith "ublock:" || api.startsWith "cblock:" || api.startsWith "fn:" then .blockToWrite
+  else .capturedTo
+
+/-- The flat renders are answered by the model WITH SWITCHES instantiated with the facts the
+    regenerated tables state about the source (`codeFacts`: sticky guard and error store of both
+    adapter methods, `check`/`take_err` at the entry point the API goes through, propagation at
+    the write sites): if the source loses one of them, the table changes, `code_facts_hold`
+    breaks, and this answer is what the model predicts for the source as it then is. -/
+def answer (cur : Cur) (api : String) (script : List Beh) : String :=
+  let sx : List SXOp := cur.ops.map (SXOp.op 0)
   let o := match cur.prog with
     | some p => renderProgTo p script
-    | none => renderTo cur.ops script
+    | none => renderToF codeFacts (apiOf api) sx script
   let d := delivered o.calls
-  let n := min (countExec cur.ops (St.init ⟨script, [], none⟩) 0) cur.nReal
+  let n := min (execCountF codeFacts sx script) cur.nReal
   s!"calls={o.calls.length} acc={d.length} sum={sumBytes d} dig={digest o.calls} res={showRes o.result} ops={n}"
 
 /-- `clean`: the real run completed (otherwise the real operations, ending with the failure, only
@@ -423,9 +435,9 @@ partial def loop (h : IO.FS.Stream) (out : IO.FS.Stream) (cur : Cur) : IO Unit :
       loop h out cur
   | "case" :: key :: _ =>
     match key.splitOn " " with
-    | [_pid, _api, script] =>
+    | [_pid, api, script] =>
       match parseScript script with
-      | some sc => out.putStrLn s!"case\t{key}\t{answer cur sc}"
+      | some sc => out.putStrLn s!"case\t{key}\t{answer cur api sc}"
       | none => out.putStrLn s!"case\t{key}\tbad-script"
     | _ => out.putStrLn s!"case\t{key}\tbad-case"
     loop h out cur
